@@ -30,6 +30,7 @@ type Arg struct {
 	IsInt bool
 	I     int64
 	S     string
+	Ptr   bool // passed as *string / *int64
 }
 
 func (a Arg) text() string {
@@ -39,12 +40,33 @@ func (a Arg) text() string {
 	return a.S
 }
 
+// any is the Go value handed to database/sql: strings and integers of every
+// width, also behind a pointer (database/sql's documented conversions turn all
+// of them into the same string / int64 on the Prepare and on the direct path).
 func (a Arg) any() any {
 	if a.IsInt {
-		if a.I%2 == 0 {
-			return int(a.I)
+		var v any = a.I
+		switch m := ((a.I % 7) + 7) % 7; {
+		case m == 0:
+			v = int(a.I)
+		case m == 1 && a.I >= math.MinInt32 && a.I <= math.MaxInt32:
+			v = int32(a.I)
+		case m == 2 && a.I >= 0 && a.I <= math.MaxUint16:
+			v = uint16(a.I)
+		case m == 3 && a.I >= math.MinInt8 && a.I <= math.MaxInt8:
+			v = int8(a.I)
+		case m == 4 && a.I >= 0:
+			v = uint64(a.I)
 		}
-		return a.I
+		if a.Ptr {
+			i := a.I
+			return &i
+		}
+		return v
+	}
+	if a.Ptr {
+		s := a.S
+		return &s
 	}
 	return a.S
 }
@@ -445,6 +467,12 @@ func drawCase(t *rapid.T) *Case {
 }
 
 func drawArg(t *rapid.T, d *model.Data, cols []string) Arg {
+	a := drawArg1(t, d, cols)
+	a.Ptr = rapid.IntRange(0, 5).Draw(t, "argptr") == 0
+	return a
+}
+
+func drawArg1(t *rapid.T, d *model.Data, cols []string) Arg {
 	switch rapid.IntRange(0, 9).Draw(t, "argkind") {
 	case 0, 1:
 		return Arg{IsInt: true, I: rapid.OneOf(rapid.Int64Range(-3, 12), rapid.Int64Range(-3, 12),
